@@ -157,12 +157,28 @@ def leg_asm(shard, doc, skool, o, rp, leg='asm', fname='in.skool'):
 def leg_html(shard, doc, skool, rp):
     harness.write_file('in.skool', skool)
     shutil.rmtree('html', ignore_errors=True)
-    r = harness.run_tool('skool2html', ['-q', '-d', 'html', '-w', 'd', 'in.skool'])
+    single = shard.rng('html-single-page', doc['org'], len(doc['entries']), len(skool)).random() < 0.3
+    r = harness.run_tool('skool2html', ['-q', '-d', 'html', '-w', 'd'] + (['-1'] if single else []) + ['in.skool'])
     shard.inc('events:skool2html_runs')
     if not r.ok:
         shard.violation('skool2html failed: %s\n%s' % (r.describe(), (r.tb or '')[-1500:]), dict(rp, leg='html'))
         return
     problems = []
+    if single:
+        fn = os.path.join('html', 'in', 'asm.html')
+        if not os.path.isfile(fn):
+            problems.append({'code': 'structure', 'place': 'single page', 'detail': 'no page %s written' % fn})
+        else:
+            with open(fn, encoding='utf-8') as f:
+                page = f.read()
+            ps, stats = R.check_html_single_page(doc['entries'], page)
+            shard.inc('observed:html:single_pages')
+            add_stats(shard, 'html', stats)
+            problems += ps
+        shutil.rmtree('html', ignore_errors=True)
+        if problems:
+            report(shard, 'html', problems, rp, 'skool2html -1 in.skool')
+        return
     for e in doc['entries']:
         fn = os.path.join('html', 'in', 'asm', '%d.html' % e['addr'])
         if not os.path.isfile(fn):
